@@ -68,7 +68,11 @@ def gen_plan(seed: int, run: int, tier: str) -> dict:
     located = workload.located_pairs()
     r = rng.random()
     pref = None
-    if r < 0.55:
+    extra = sorted({m for m, _ in ok_pairs if m.startswith("extra/")})
+    if extra and rng.random() < 0.1:
+        # the meta-models of /verif with dense cross references (cyclic object graphs)
+        model = extra[rng.randrange(len(extra))]
+    elif r < 0.55:
         model, _ = ok_pairs[rng.randrange(len(ok_pairs))]
     elif r < 0.9 and located:
         model, pref = located[rng.randrange(len(located))]
